@@ -151,6 +151,9 @@ type call struct {
 	id  int
 	cl  caller
 	d   time.Duration // the timeout that applies to this call
+	// noTimeout: no timeout is configured for this call at all (zrpc client without a client-wide timeout
+	// and no WithCallTimeout): only the caller's deadline applies
+	noTimeout bool
 	wk  *work
 	pre time.Duration // think time before the call
 
@@ -230,6 +233,13 @@ func (c *call) checkDeadlineInside(pfx string) {
 		return
 	}
 	r.Probe("deadline-inside-checked")
+	if c.noTimeout {
+		if !c.callerDL.IsZero() && (!k.dlOK || k.dlSeen.After(c.callerDL)) {
+			r.Fail(pfx+"deadline-later-than-caller", "call %d (no timeout configured, %v): the work's deadline (present=%v, t0+%v) is later than the caller's deadline t0+%v",
+				c.id, c.cl, k.dlOK, k.dlSeen.Sub(c.t0), c.callerDL.Sub(c.t0))
+		}
+		return
+	}
 	if !k.dlOK {
 		r.Fail(pfx+"no-deadline-inside", "call %d (timeout %v, %v): the work's context has no deadline", c.id, c.d, c.cl)
 		return
